@@ -186,6 +186,10 @@ func VerifyFunction(L *Loaded, cs *ContractSet, fn *ssa.Function, opts VerifyOpt
 			st.assume(x.evalBool(aenv, a.Expr))
 		}
 	}
+	if ctr != nil {
+		st.held = append(st.held, x.holdsKeys(ctr, env)...)
+		x.entryHeld = len(st.held)
+	}
 	// known-finding exclusions for this function
 	for _, kf := range known {
 		if strings.HasPrefix(kf.Obligation, x.fnKey+"/") && kf.ExcludedInput != "" {
@@ -570,6 +574,18 @@ func (x *Exec) exitObligations(fr *Frame, st *State, rs []Val, oldSt *State, spe
 			x.oblige(st, "POST", "post("+name+")", g, "postcondition")
 		}
 	}
+	// every method re-establishes the object invariant of its receiver
+	if root := rootFn(fr.fn); root == fr.fn && root.Signature.Recv() != nil && len(fr.params) > 0 {
+		tn := recvTypeName(root.Signature.Recv().Type())
+		if invs := x.cs.ObjInvs[FuncPkgPath(fr.fn)+"."+tn]; len(invs) > 0 {
+			ienv := &Env{x: x, st: st, vars: map[string]Val{"self": fr.params[0]}, pkg: x.pkgOf(fr.fn)}
+			for _, c := range invs {
+				g := x.evalBool(ienv, c.Expr)
+				x.curPos = x.retPos
+				x.oblige(st, "INV", fmt.Sprintf("preserves-invariant(%s: %s)", tn, c.Src), g, "the receiver's object invariant must hold again when the method returns")
+			}
+		}
+	}
 	// constructors establish object invariants: every object allocated on
 	// this path whose type has an invariant satisfies it at the return
 	var freshKeys []string
@@ -630,11 +646,23 @@ func (x *Exec) exitObligations(fr *Frame, st *State, rs []Val, oldSt *State, spe
 	}
 	// O-LOCK: nothing held at exit; atomic methods lock at most once
 	if x.classes["LOCK"] {
-		if len(st.held) > 0 && (ctr == nil || len(ctr.Holds) == 0) {
-			x.oblige(st, "LOCK", "released-at-exit", False, "mutex still held at return")
+		if len(st.held) != x.entryHeld {
+			x.oblige(st, "LOCK", "released-at-exit", False, "the set of held mutexes at return differs from the one at entry")
 		}
 		if ctr != nil && ctr.Atomic {
-			x.oblige(st, "LOCK", "atomic(single critical section)", BoolLit(len(st.lockLog) <= 1), "method declared atomic enters more than one critical section")
+			// critical sections on the receiver's own mutex type (nested
+			// locks of other objects inside the section do not count)
+			n := 0
+			tn := ""
+			if recv := rootFn(fr.fn).Signature.Recv(); recv != nil {
+				tn = recvTypeName(recv.Type())
+			}
+			for _, l := range st.lockLog {
+				if strings.HasPrefix(l, "callee:") || tn == "" || strings.Contains(l, "#"+tn+".") {
+					n++
+				}
+			}
+			x.oblige(st, "LOCK", "atomic(single critical section)", BoolLit(n <= 1), "method declared atomic enters more than one critical section")
 		}
 	}
 }
@@ -776,7 +804,11 @@ func groupObligations(results []*FuncResult) []*Group {
 			case o.Result.Answer == "sat":
 				g.Status = "failed"
 			default:
-				if g.Status != "failed" {
+				if o.Class == "LOCK" || o.Class == "FRAME" || o.Class == "TERM" {
+					// structural obligations (goal false unless the path is
+					// infeasible): a path that is not proved infeasible fails
+					g.Status = "failed"
+				} else if g.Status != "failed" {
 					g.Status = "undecided"
 				}
 			}
